@@ -98,6 +98,18 @@ def pregen():
     return gi, ""
 
 
+# witnesses of repaired defects, run first on every tier: a7c512a (relay servers whose names do not resolve were the last outstanding items: the
+# gathering never completed), the same for the STUN server name
+GATHER_CORPUS = [
+    ("gathK1 seed,1041952725 agent,0,0,1,0,10.0.1.1 stream,0,2 net,0,0,1,10,3 relayhost,0,1,1,no-such-host.invalid,3478 relayhost,0,1,2,no-such-host.invalid,3478 "
+     "gather,0,1 settle,40 run,30000 localcands,0,1,1 localcands,0,1,2",
+     {"kind": "gather", "ncomp": 2, "ips": ("10.0.1.1",), "stun": None, "turns": [], "turns2": [], "again": False, "stun_v6": False}),
+    ("gathK2 seed,5 agent,0,0,1,0,10.0.0.1 stream,0,1 net,0,0,1,1,3 props,0,stun-server,no-such-host.invalid prop,0,stun-server-port,3478 gather,0,1 settle,40 "
+     "run,15000 localcands,0,1,1",
+     {"kind": "gather", "ncomp": 1, "ips": ("10.0.0.1",), "stun": None, "turns": [], "turns2": [], "again": False, "stun_v6": False}),
+]
+
+
 def run(chk):
     gi, err = pregen()
     if gi is None:
@@ -107,7 +119,7 @@ def run(chk):
     import c20_discovery
     c20_discovery.discovery_tie(chk)
     n = 1500 if chk.tier == "quick" else 60000
-    cases = [sc.gen_gather(chk.rng, i) for i in range(n)]
+    cases = GATHER_CORPUS + [sc.gen_gather(chk.rng, i) for i in range(n)]
     mixed = chk.sub_rng("mixed-lookups")
     mcases = [sc.gen_gather(mixed, 100000 + i, mixed=True) for i in range(n // 8)]
     sc.run_sim(chk, cases, oracle, "sim-C20", token="gathering-done")
